@@ -7,6 +7,7 @@ From MZ.spec Require Import Adler DeflateSpec.
 From MZ.gen Require GenTables GenZlib.
 From MZ.model Require Import DeflateCore.
 From MZ.proofs Require Import IterPow StoredSpec DeflateCounts.
+From MZ.proofs Require ZlibHeader.
 Import ListNotations.
 Local Open Scope N_scope.
 
@@ -261,6 +262,13 @@ Proof.
   - destruct n as [|n]; cbn [skipn plus nth]; [reflexivity|]. apply IH.
 Qed.
 
+Lemma skipn_skipn_add {A} : forall (l : list A) n m, skipn n (skipn m l) = skipn (m + n) l.
+Proof.
+  induction l as [|x l IH]; intros n m.
+  - rewrite !skipn_nil. reflexivity.
+  - destruct m as [|m]; cbn [skipn plus]; [reflexivity|]. apply IH.
+Qed.
+
 Lemma dict_range_data d data lo len :
   dict_inv d data lo (lo + len) -> len < 32768 -> lo + len <= N.of_nat (length data) ->
   dict_range d (N.land lo DMASK) len = firstn (N.to_nat len) (skipn (N.to_nat lo) data).
@@ -275,4 +283,782 @@ Proof.
     rewrite Hinv by lia. unfold dat.
     rewrite nth_firstn_lt by exact Hk.
     rewrite nth_skipn_add. f_equal. lia.
+Qed.
+
+(* ------------------------------------------------------------------ flush_block on the raw path *)
+Lemma lor_shift8_mod h0 h1 : h0 < 256 -> N.lor h0 (N.shiftl h1 8) mod 256 = h0.
+Proof.
+  intros H. change 256 with (2 ^ 8). rewrite <- N.land_ones, N.land_lor_distr_l.
+  rewrite (N.land_ones h0), N.mod_small by exact H.
+  rewrite N.land_ones, N.shiftl_mul_pow2, N.mod_mul by (change (2 ^ 8) with 256; lia).
+  apply N.lor_0_r.
+Qed.
+
+Lemma lor_shift8_shr h0 h1 : h0 < 256 -> N.shiftr (N.lor h0 (N.shiftl h1 8)) 8 = h1.
+Proof.
+  intros H. rewrite N.shiftr_lor, shiftr8_small by exact H.
+  rewrite N.shiftr_shiftl_l, N.sub_diag, N.shiftl_0_r by lia. apply N.lor_0_l.
+Qed.
+
+Lemma put_hdr o h0 h1 o' :
+  aligned o -> h0 < 256 -> h1 < 256 ->
+  put_bits (put_bits_no_flush o h0 8) h1 8 = Ret o' -> o' = push o [h0; h1].
+Proof.
+  destruct o as [r n bb bi]. unfold aligned. cbn [ob_bb ob_bits]. intros [-> ->] H0 H1.
+  unfold put_bits, put_bits_no_flush, guard. cbn [ob_rev ob_n ob_bb ob_bits].
+  change (8 <? 32) with true. cbn [bind].
+  destruct (h1 <=? N.ones 8); cbn [bind]; [|discriminate].
+  rewrite N.shiftl_0_r, N.lor_0_l, N.add_0_l, (N.mod_small h0 U32) by (unfold U32; lia).
+  assert (Hlt : N.lor h0 (N.shiftl h1 8) < U32).
+  { assert (N.lor h0 (N.shiftl h1 8) < 2 ^ 16); [|unfold U32; change (2 ^ 16) with 65536 in *; lia].
+    destruct (N.eq_dec (N.lor h0 (N.shiftl h1 8)) 0) as [E|E]; [rewrite E; reflexivity|].
+    apply N.log2_lt_pow2; [lia|]. rewrite N.log2_lor.
+    apply N.max_lub_lt.
+    - destruct (N.eq_dec h0 0) as [->|]; [reflexivity|]. apply N.log2_lt_pow2; [lia|change (2 ^ 16) with 65536; lia].
+    - destruct (N.eq_dec h1 0) as [->|]; [reflexivity|].
+      rewrite N.log2_shiftl by assumption.
+      assert (N.log2 h1 < 8) by (apply N.log2_lt_pow2; [lia|exact H1]). lia. }
+  rewrite (N.mod_small _ U32) by exact Hlt.
+  rewrite ofb_step. cbn [ob_rev ob_n ob_bb ob_bits]. change (8 <=? 8 + 8) with true. cbv iota.
+  unfold guard. destruct (n <? OUT_CAP); cbn [bind]; [|discriminate].
+  rewrite ofb_step. cbn [ob_rev ob_n ob_bb ob_bits]. change (8 <=? 8 + 8 - 8) with true. cbv iota.
+  destruct (n + 1 <? OUT_CAP); cbn [bind]; [|discriminate].
+  rewrite ofb_done by (cbn [ob_bits]; lia).
+  rewrite lor_shift8_mod, lor_shift8_shr, (N.mod_small h1 256), shiftr8_small by assumption.
+  intros H; inversion H; subst; clear H. unfold push. cbn [rev app length ob_rev ob_n].
+  change (N.of_nat 2) with 2. f_equal. lia.
+Qed.
+
+Definition hdr (flags wb : N) : list N :=
+  if hasf flags FLAG_ZLIB then
+    let '((h0, h1), _) := GenZlib.header_from_flags (Z.of_N flags) (Z.of_N wb) in [Z.to_N h0; Z.to_N h1]
+  else [].
+
+Lemma lnot16 tb : tb < 65536 -> N.land (N.lxor tb 4294967295) 65535 = 65535 - tb.
+Proof.
+  intros H. change 4294967295 with (N.ones 32). change 65535 with (N.ones 16).
+  assert (Hlog : tb <> 0 -> N.log2 tb < 16) by (intros; apply N.log2_lt_pow2; [lia|exact H]).
+  transitivity (N.lnot tb 16).
+  - apply N.bits_inj. intros n. unfold N.lnot. rewrite N.land_spec, !N.lxor_spec.
+    destruct (N.lt_ge_cases n 16) as [Hn|Hn].
+    + rewrite !N.ones_spec_low by lia. rewrite andb_true_r. reflexivity.
+    + rewrite (N.ones_spec_high 16) by lia. rewrite andb_false_r, xorb_false_r.
+      destruct (N.eq_dec tb 0) as [->|Hz]; [rewrite N.bits_0; reflexivity|].
+      symmetry. apply N.bits_above_log2. specialize (Hlog Hz). lia.
+  - apply N.lnot_sub_low. destruct (N.eq_dec tb 0) as [->|Hz]; [reflexivity|apply Hlog; exact Hz].
+Qed.
+
+Definition block_bytes (c : comp) (flush : N) : list N :=
+  (if hasf (c_flags c) FLAG_ZLIB && (c_block_index c =? 0) then hdr (c_flags c) (c_wbits c) else []) ++
+  stored_block (flush =? TF_FINISH) (dict_range (c_dict c) (N.land (c_cbdp c) DMASK) (c_total_bytes c)) ++
+  (if (flush =? TF_FINISH) && hasf (c_flags c) FLAG_ZLIB then be32 (c_adler c) else []).
+
+Definition after_block (c : comp) : comp :=
+  mkc (c_flags c) (c_wbits c) (c_block_index c + 1) (c_flush c) (c_pending c) (c_finished c)
+      (c_adler c) (c_prev c) 0 0 (c_saved_match_len c) (c_dict c)
+      (c_cbdp c + c_total_bytes c) (c_la_size c) (c_la_pos c) (c_dsize c) 0.
+
+Lemma flush_block_raw c cb flush r :
+  hasf (c_flags c) FLAG_RAW = true -> c_sbuf c = 0 -> c_sbits c = 0 -> c_wbits c <= 15 ->
+  flush = TF_NONE \/ flush = TF_FINISH ->
+  (0 <? c_total_bytes c) || (flush =? TF_FINISH) = true ->
+  c_total_bytes c < 32768 -> c_adler c < 2 ^ 32 ->
+  flush_block c cb flush = Ret r ->
+  c_pending c = [] /\
+  r = let '(n, c2, cb2) := flush_output (after_block c) cb (block_bytes c flush) in FbOk n c2 cb2.
+Proof.
+  intros Hraw Hsb Hsn Hwb Hfl Hblk Htb Had.
+  unfold flush_block. rewrite Hsb, Hsn, Hraw, Hblk.
+  set (o0 := {| ob_rev := []; ob_n := 0; ob_bb := 0; ob_bits := 0 |}).
+  assert (A0 : aligned o0) by (split; reflexivity).
+  (* header *)
+  assert (Hh : forall o1,
+    (if hasf (c_flags c) FLAG_ZLIB && (c_block_index c =? 0)
+     then let '(h0, h1, _) := GenZlib.header_from_flags (Z.of_N (c_flags c)) (Z.of_N (c_wbits c)) in
+          put_bits (put_bits_no_flush o0 (Z.to_N h0) 8) (Z.to_N h1) 8
+     else Ret o0) = Ret o1 ->
+    o1 = push o0 (if hasf (c_flags c) FLAG_ZLIB && (c_block_index c =? 0) then hdr (c_flags c) (c_wbits c) else [])).
+  { intros o1. unfold hdr. destruct (hasf (c_flags c) FLAG_ZLIB); cbn [andb].
+    - destruct (c_block_index c =? 0).
+      + pose proof (ZlibHeader.header_from_flags_valid (Z.of_N (c_flags c)) (Z.of_N (c_wbits c)) ltac:(lia)) as Hv.
+        destruct (GenZlib.header_from_flags (Z.of_N (c_flags c)) (Z.of_N (c_wbits c))) as [[h0 h1] okf].
+        destruct Hv as (_ & _ & _ & _ & _ & _ & Hc & Hf & _).
+        intros E. apply put_hdr in E; [exact E|exact A0|lia|lia].
+      + intros E; inversion E. symmetry. apply push_nil. exact A0.
+    - intros E; inversion E. symmetry. apply push_nil. exact A0. }
+  match goal with |- bind ?X _ = _ -> _ => destruct X as [o1| |] eqn:E1 end; cbn [bind]; try discriminate.
+  specialize (Hh o1 eq_refl). clear E1. rename Hh into E1.
+  set (hb := if hasf (c_flags c) FLAG_ZLIB && (c_block_index c =? 0) then hdr (c_flags c) (c_wbits c) else []) in *.
+  assert (A1 : aligned o1) by (subst o1; apply aligned_push).
+  unfold csub. destruct (c_cbdp c <=? c_la_pos c); cbn [bind]; [|discriminate].
+  unfold guard.
+  match goal with |- context [Bool.eqb ?u true] => destruct u eqn:Eu end; cbn [Bool.eqb bind]; [|discriminate].
+  destruct (c_pending c) as [|p ps] eqn:Ep; cbn [bind]; [|discriminate].
+  cbn [negb bind]. intros H. split; [reflexivity|].
+  match type of H with bind ?X _ = _ => destruct X as [o2| |] eqn:E2 end; cbn [bind] in H; try discriminate.
+  match type of E2 with bind ?X _ = _ => destruct X as [oa| |] eqn:Ea end; cbn [bind] in E2; try discriminate.
+  match type of E2 with bind ?X _ = _ => destruct X as [ob| |] eqn:Eb end; cbn [bind] in E2; try discriminate.
+  match type of E2 with bind ?X _ = _ => destruct X as [oc| |] eqn:Ec end; cbn [bind] in E2; try discriminate.
+  assert (Hoc : oc = push o1 [if flush =? TF_FINISH then 1 else 0]).
+  { eapply put_block_header; [exact A1| |exact Ea|exact Eb|exact Ec]. destruct (flush =? TF_FINISH); lia. }
+  match type of E2 with bind ?X _ = _ => destruct X as [od| |] eqn:Ed end; cbn [bind] in E2; try discriminate.
+  match type of E2 with bind ?X _ = _ => destruct X as [oe| |] eqn:Ee end; cbn [bind] in E2; try discriminate.
+  match type of E2 with bind ?X _ = _ => destruct X as [of| |] eqn:Ef end; cbn [bind] in E2; try discriminate.
+  inversion E2; subst o2; clear E2.
+  assert (Htb16 : c_total_bytes c < 65536) by lia.
+  change 65535 with (N.ones 16) in Ed at 1. rewrite N.land_ones, N.mod_small in Ed by (change (2 ^ 16) with 65536; lia).
+  rewrite lnot16 in Ee by exact Htb16.
+  apply put16 in Ed; [|subst oc; apply aligned_push|lia].
+  apply put16 in Ee; [|subst od; apply aligned_push|lia].
+  apply write_bytes_push in Ef; [|subst oe; apply aligned_push].
+  set (chunk := dict_range (c_dict c) (N.land (c_cbdp c) DMASK) (c_total_bytes c)) in *.
+  assert (Hlen : N.of_nat (length chunk) = c_total_bytes c).
+  { unfold chunk. rewrite length_dict_range; [lia| |exact Htb]. rewrite land_dmask. apply N.mod_lt. lia. }
+  assert (Hof : of = push o0 (hb ++ stored_block (flush =? TF_FINISH) chunk)).
+  { subst of oe od oc o1. rewrite !push_push. f_equal. f_equal. unfold stored_block. rewrite Hlen.
+    cbn [app]. destruct (flush =? TF_FINISH); reflexivity. }
+  clear Ea Eb Ec Ed Ee Ef Hoc.
+  (* trailer *)
+  match type of H with bind ?X _ = _ => destruct X as [og| |] eqn:Eg end; cbn [bind] in H; try discriminate.
+  assert (Hog : og = push o0 (block_bytes c flush)).
+  { unfold block_bytes. fold hb. fold chunk.
+    destruct Hfl as [-> | ->].
+    - change (TF_NONE =? TF_FINISH) with false in *. cbn [andb] in *.
+      change (TF_NONE =? TF_PARTIAL) with false in Eg. change (TF_NONE =? TF_PARTIAL_OPT) with false in Eg.
+      change ((TF_NONE =? TF_SYNC) || (TF_NONE =? TF_FULL)) with false in Eg.
+      change (TF_NONE =? TF_SYNC_OPT) with false in Eg. cbv iota in Eg.
+      inversion Eg; subst og. rewrite Hof, app_nil_r. reflexivity.
+    - change (TF_FINISH =? TF_FINISH) with true in *. cbn [andb] in *. cbv iota in Eg.
+      match type of Eg with bind ?X _ = _ => destruct X as [oh| |] eqn:Eh end; cbn [bind] in Eg; try discriminate.
+      apply pad_aligned in Eh; [|subst of; apply aligned_push]. subst oh.
+      destruct (hasf (c_flags c) FLAG_ZLIB).
+      + match type of Eg with bind ?X _ = _ => destruct X as [oi| |] eqn:Ei end; cbn [bind] in Eg; try discriminate.
+        match type of Eg with bind ?X _ = _ => destruct X as [oj| |] eqn:Ej end; cbn [bind] in Eg; try discriminate.
+        match type of Eg with bind ?X _ = _ => destruct X as [ok| |] eqn:Ek end; cbn [bind] in Eg; try discriminate.
+        apply put8 in Ei; [|subst of; apply aligned_push|apply N.mod_lt; lia].
+        apply put8 in Ej; [|subst oi; apply aligned_push|apply N.mod_lt; lia].
+        apply put8 in Ek; [|subst oj; apply aligned_push|apply N.mod_lt; lia].
+        apply put8 in Eg; [|subst ok; apply aligned_push|apply N.mod_lt; lia].
+        subst og ok oj oi of. rewrite !push_push, <- !app_assoc. reflexivity.
+      + inversion Eg; subst og. rewrite Hof, app_nil_r. reflexivity. }
+  subst og. cbn [push ob_bb ob_bits ob_rev o0] in H.
+  rewrite app_nil_r, rev_append_rev, app_nil_r, rev_involutive in H.
+  unfold after_block. rewrite Ep.
+  destruct (flush_output _ cb (block_bytes c flush)) as [[n c2] cb2].
+  inversion H; subst; reflexivity.
+Qed.
+
+(* ------------------------------------------------------------------ what level 0 emits *)
+Definition BS : N := 31745.
+
+Definition chunk (data : list N) (i : nat) : list N :=
+  firstn (N.to_nat BS) (skipn (i * N.to_nat BS) data).
+
+Fixpoint encs (data : list N) (k : nat) : list N :=
+  match k with
+  | O => []
+  | S k' => encs data k' ++ stored_block false (chunk data k')
+  end.
+
+Section Run.
+Variables (data : list N) (flags wb : N).
+Hypothesis Hraw : hasf flags FLAG_RAW = true.
+Hypothesis Hwb : wb <= 15.
+
+Definition total : N := N.of_nat (length data).
+
+Definition enc (k : N) : list N :=
+  if k =? 0 then [] else hdr flags wb ++ encs data (N.to_nat k).
+
+Lemma hdr_nonzlib : hasf flags FLAG_ZLIB = false -> hdr flags wb = [].
+Proof. unfold hdr. intros ->. reflexivity. Qed.
+
+Lemma enc_succ k :
+  enc (k + 1) = enc k ++ (if hasf flags FLAG_ZLIB && (k =? 0) then hdr flags wb else []) ++
+                stored_block false (chunk data (N.to_nat k)).
+Proof.
+  unfold enc. replace (k + 1 =? 0) with false by (symmetry; apply N.eqb_neq; lia).
+  replace (N.to_nat (k + 1)) with (S (N.to_nat k)) by lia. cbn [encs].
+  destruct (k =? 0) eqn:E.
+  - apply N.eqb_eq in E. subst k. cbn [N.to_nat encs app]. rewrite andb_true_r.
+    destruct (hasf flags FLAG_ZLIB) eqn:Z; [reflexivity|]. rewrite hdr_nonzlib by exact Z. reflexivity.
+  - rewrite andb_false_r. cbn [app]. rewrite <- app_assoc. reflexivity.
+Qed.
+
+(* fields of the compressor that stay put while a stream is being produced *)
+Definition cfix (A : N) (c : comp) : Prop :=
+  c_flags c = flags /\ c_wbits c = wb /\ c_sbuf c = 0 /\ c_sbits c = 0 /\ c_finished c = false /\ c_adler c = A.
+
+(* the state between two phases of a call; cb is the call's output buffer, R what earlier calls delivered *)
+Definition BI (R : list N) (A : N) (c : comp) (cb : cbout) : Prop :=
+  cfix A c /\
+  c_la_pos c + c_la_size c <= total /\
+  c_la_pos c = c_cbdp c + c_total_bytes c /\ c_cbdp c = BS * c_block_index c /\
+  c_total_bytes c < BS /\ c_la_size c <= 257 /\
+  dict_inv (c_dict c) data (c_cbdp c) (c_la_pos c + c_la_size c) /\
+  (exists len w ofs, cb = CBuf len w ofs) /\
+  R ++ cb_written cb ++ c_pending c = enc (c_block_index c).
+
+(* the engine's loop state *)
+Definition SI (R : list N) (A C0 : N) (s : sstate) : Prop :=
+  let c := s_c s in
+  cfix A c /\ c_flush c = TF_FINISH /\ c_pending c = [] /\
+  s_in s = skipn (N.to_nat (s_lp s + s_ls s)) data /\
+  s_inleft s = N.of_nat (length (s_in s)) /\
+  s_lp s + s_ls s + s_inleft s = total /\
+  s_lp s + s_ls s = C0 + s_src s /\
+  s_lp s = c_cbdp c + s_bw s /\ c_cbdp c = BS * c_block_index c /\
+  s_bw s < BS /\ s_ls s <= 257 /\
+  dict_inv (c_dict c) data (c_cbdp c) (s_lp s + s_ls s) /\
+  (exists len w ofs, s_cb s = CBuf len w ofs) /\
+  R ++ cb_written (s_cb s) = enc (c_block_index c).
+
+Lemma cfix_set_la A c d ls lp ds tb : cfix A c -> cfix A (set_la c d ls lp ds tb).
+Proof. unfold cfix, set_la. cbn. tauto. Qed.
+
+Lemma firstn_skipn_dat hi n k :
+  (k < n)%nat -> nth k (firstn n (skipn (N.to_nat hi) data)) 0 = dat data (hi + N.of_nat k).
+Proof.
+  intros H. rewrite nth_firstn_lt by exact H. rewrite nth_skipn_add. unfold dat. f_equal. lia.
+Qed.
+
+Lemma chunk_at k :
+  firstn (N.to_nat BS) (skipn (N.to_nat (BS * k)) data) = chunk data (N.to_nat k).
+Proof. unfold chunk. f_equal. f_equal. lia. Qed.
+
+(* the bytes of one in-loop block flush *)
+Lemma block_bytes_none c :
+  c_flags c = flags -> c_wbits c = wb -> c_total_bytes c = BS -> c_cbdp c = BS * c_block_index c ->
+  dict_inv (c_dict c) data (c_cbdp c) (c_cbdp c + BS) -> c_cbdp c + BS <= total ->
+  block_bytes c TF_NONE =
+  (if hasf flags FLAG_ZLIB && (c_block_index c =? 0) then hdr flags wb else []) ++
+  stored_block false (chunk data (N.to_nat (c_block_index c))).
+Proof.
+  intros Hf Hw Ht Hc Hd Hle. unfold block_bytes. rewrite Hf, Hw, Ht.
+  change (TF_NONE =? TF_FINISH) with false. cbn [andb]. rewrite app_nil_r.
+  rewrite (dict_range_data _ data); [|exact Hd|unfold BS; lia|exact Hle].
+  rewrite Hc, chunk_at. reflexivity.
+Qed.
+
+(* delivering the bytes of one block into the call's buffer *)
+Lemma flush_output_vout c len w ofs bytes n c' cb' :
+  c_pending c = [] -> bytes <> [] ->
+  flush_output c (CBuf len w ofs) bytes = (n, c', cb') ->
+  cb_written cb' ++ c_pending c' = cb_written (CBuf len w ofs) ++ bytes /\
+  (exists w' ofs', cb' = CBuf len w' ofs') /\
+  n = Z.of_N (N.of_nat (length (c_pending c'))) /\
+  (c' = c \/ exists later, later <> [] /\ c' = set_pending c later).
+Proof.
+  intros Hp Hb. unfold flush_output.
+  destruct (N.of_nat (length bytes) =? 0) eqn:E.
+  { apply N.eqb_eq in E. destruct bytes; [contradiction|cbn [length] in E; lia]. }
+  destruct (ntake bytes (len - ofs)) as [[now later] k] eqn:Et.
+  apply ntake_spec in Et. destruct Et as (E1 & E2 & E3).
+  intros H; inversion H; subst n c' cb'; clear H.
+  cbn [cb_written]. rewrite !rev_append_rev, !app_nil_r, rev_app_distr, rev_involutive.
+  destruct later as [|x later].
+  - rewrite Hp, !app_nil_r in *. subst bytes. repeat split; eauto.
+  - cbn [set_pending mkc c_pending]. subst bytes. rewrite <- app_assoc.
+    repeat split; eauto. right. exists (x :: later). split; [discriminate|reflexivity].
+Qed.
+
+(* ---- one turn of the stored engine *)
+Arguments N.add : simpl never.
+Arguments N.sub : simpl never.
+Arguments N.mul : simpl never.
+Arguments N.min : simpl never.
+Arguments N.ltb : simpl never.
+Arguments N.leb : simpl never.
+Arguments N.eqb : simpl never.
+
+Lemma stored_turn_SI_inl R A C0 s s' :
+  A < 2 ^ 32 -> SI R A C0 s -> stored_turn s = inl s' -> SI R A C0 s'.
+Proof.
+  intros HA HSI.
+  destruct HSI as (Hfix & Hfl & Hpe & Hin & Hil & Hsum & Hsrc & Hlp & Hcb & Hbw & Hls & Hd & Hcbuf & Hout).
+  unfold stored_turn. cbv zeta. rewrite Hfl.
+  change (TF_FINISH =? TF_NONE) with false. cbn [negb andb].
+  destruct ((0 <? s_inleft s) || negb (s_ls s =? 0)) eqn:Econd; [|discriminate].
+  destruct (csub C_MAX_MATCH (s_ls s) 320) as [room| |] eqn:Er; try discriminate.
+  assert (Hroom : room = 258 - s_ls s).
+  { unfold csub, C_MAX_MATCH in Er. destruct (s_ls s <=? 258); inversion Er; reflexivity. }
+  set (n := N.min (s_inleft s) room).
+  assert (Hn1 : n <= s_inleft s) by (unfold n; lia).
+  assert (Hn2 : s_ls s + n <= 258) by (unfold n; lia).
+  set (bytes := firstn (N.to_nat n) (s_in s)).
+  assert (Hblen : N.of_nat (length bytes) = n).
+  { unfold bytes. rewrite firstn_length. lia. }
+  set (d := dict_put (c_dict (s_c s)) (s_lp s + s_ls s) bytes).
+  assert (Hd' : dict_inv d data (c_cbdp (s_c s)) (s_lp s + s_ls s + n)).
+  { rewrite <- Hblen. unfold d. apply dict_put_inv; [exact Hd|lia|unfold BS in *; lia|].
+    intros k Hk. unfold bytes. rewrite Hin. apply firstn_skipn_dat. lia. }
+  destruct (csub (s_ls s + n) 1 321) as [ls1| |] eqn:El; try discriminate.
+  assert (Hls1 : ls1 = s_ls s + n - 1 /\ 1 <= s_ls s + n).
+  { unfold csub in El. destruct (1 <=? s_ls s + n) eqn:E; inversion El. apply N.leb_le in E. lia. }
+  destruct Hls1 as [-> Hpos].
+  assert (Hrest : skipn (N.to_nat n) (s_in s) = skipn (N.to_nat (s_lp s + 1 + (s_ls s + n - 1))) data).
+  { rewrite Hin, skipn_skipn_add. f_equal. lia. }
+  assert (Hrl : N.of_nat (length (skipn (N.to_nat n) (s_in s))) = s_inleft s - n).
+  { rewrite skipn_length. lia. }
+  destruct (31744 <? s_bw s + 1) eqn:Ebw.
+  - (* the block is full: flush it *)
+    apply N.ltb_lt in Ebw. assert (Hbw1 : s_bw s + 1 = BS) by (unfold BS in *; lia).
+    set (c1 := set_la (s_c s) d (s_ls s + n - 1) (s_lp s + 1) _ (s_bw s + 1)).
+    destruct Hfix as (F1 & F2 & F3 & F4 & F5 & F6).
+    destruct (flush_block c1 (s_cb s) TF_NONE) as [fb| |] eqn:Ef; try discriminate.
+    apply flush_block_raw in Ef;
+      [|cbn; rewrite F1; exact Hraw|cbn; exact F3|cbn; exact F4|cbn; rewrite F2; exact Hwb|left; reflexivity
+       |cbn [c1 set_la mkc c_total_bytes]; rewrite Hbw1; reflexivity|cbn [c1 set_la mkc c_total_bytes]; unfold BS in *; lia
+       |cbn [c1 set_la mkc c_adler]; rewrite F6; exact HA].
+    destruct Ef as [_ Ef].
+    destruct Hcbuf as (len & w & ofs & Ecb). rewrite Ecb in Ef.
+    assert (Hbb : block_bytes c1 TF_NONE =
+                  (if hasf flags FLAG_ZLIB && (c_block_index (s_c s) =? 0) then hdr flags wb else []) ++
+                  stored_block false (chunk data (N.to_nat (c_block_index (s_c s))))).
+    { change (c_block_index (s_c s)) with (c_block_index c1).
+      apply block_bytes_none; unfold c1; cbn [set_la mkc c_flags c_wbits c_total_bytes c_cbdp c_block_index c_dict];
+        try assumption.
+      - eapply dict_inv_weaken; [exact Hd'|lia|lia].
+      - lia. }
+    destruct (flush_output (after_block c1) (CBuf len w ofs) (block_bytes c1 TF_NONE)) as [[nn c2] cb2] eqn:Efo.
+    assert (Hne : block_bytes c1 TF_NONE <> []).
+    { rewrite Hbb. intros X. apply app_eq_nil in X. destruct X as [_ X]. unfold stored_block in X. discriminate X. }
+    apply flush_output_vout in Efo; [|exact Hpe|exact Hne].
+    destruct Efo as (Ev & (w' & ofs' & Ecb2) & Enn & Ec2).
+    subst fb.
+    destruct (negb (nn =? 0)%Z) eqn:Enz; [discriminate|].
+    intros H; inversion H; subst s'; clear H.
+    assert (Hp2 : c_pending c2 = []).
+    { apply negb_false_iff, Z.eqb_eq in Enz. rewrite Enn in Enz. destruct (c_pending c2); [reflexivity|cbn [length] in Enz; lia]. }
+    assert (Hc2 : c2 = after_block c1).
+    { destruct Ec2 as [E|(later & Hl & E)]; [exact E|]. rewrite E in Hp2. cbn in Hp2. contradiction. }
+    rewrite Hp2, app_nil_r in Ev.
+    unfold SI. cbn [s_c s_cb s_in s_inleft s_src s_bw s_ls s_lp].
+    rewrite Hc2. cbn [after_block c1 set_la mkc c_flags c_wbits c_sbuf c_sbits c_finished c_adler c_flush c_pending
+                        c_cbdp c_block_index c_dict c_total_bytes].
+    repeat split; try assumption; try lia.
+    + eapply dict_inv_weaken; [exact Hd'|lia|lia].
+    + eauto.
+    + rewrite Ev, <- Ecb, app_assoc, Hout, Hbb. symmetry. apply enc_succ.
+  - (* no flush *)
+    apply N.ltb_ge in Ebw.
+    intros H; inversion H; subst s'; clear H.
+    destruct Hfix as (F1 & F2 & F3 & F4 & F5 & F6).
+    unfold SI, cfix. cbn [s_c s_cb s_in s_inleft s_src s_bw s_ls s_lp].
+    cbn [set_la mkc c_flags c_wbits c_sbuf c_sbits c_finished c_adler c_flush c_pending
+         c_cbdp c_block_index c_dict c_total_bytes].
+    repeat split; try assumption; try (unfold BS in *; lia).
+    eapply dict_inv_weaken; [exact Hd'|lia|lia].
+Qed.
+
+Definition SQ (R : list N) (A C0 : N) (r : res stres) : Prop :=
+  match r with
+  | Ret (SRet ok c cb src) =>
+      ok = true /\ BI R A c cb /\ c_flush c = TF_FINISH /\
+      c_la_pos c + c_la_size c = C0 + src /\
+      (c_pending c = [] -> c_la_size c = 0 /\ c_la_pos c = total)
+  | _ => True
+  end.
+
+Lemma stored_turn_SI_inr R A C0 s r :
+  A < 2 ^ 32 -> SI R A C0 s -> stored_turn s = inr r -> SQ R A C0 r.
+Proof.
+  intros HA HSI.
+  destruct HSI as (Hfix & Hfl & Hpe & Hin & Hil & Hsum & Hsrc & Hlp & Hcb & Hbw & Hls & Hd & Hcbuf & Hout).
+  destruct Hfix as (F1 & F2 & F3 & F4 & F5 & F6).
+  unfold stored_turn. cbv zeta. rewrite Hfl.
+  change (TF_FINISH =? TF_NONE) with false. cbn [negb andb].
+  destruct ((0 <? s_inleft s) || negb (s_ls s =? 0)) eqn:Econd.
+  2:{ (* the loop is over: no input left and the look-ahead is empty *)
+      apply orb_false_iff in Econd. destruct Econd as [E1 E2].
+      apply N.ltb_ge in E1. apply negb_false_iff, N.eqb_eq in E2.
+      intros H; inversion H; subst r; clear H. unfold SQ, BI, cfix.
+      cbn [set_la mkc c_flags c_wbits c_sbuf c_sbits c_finished c_adler c_flush c_pending
+           c_cbdp c_block_index c_dict c_total_bytes c_la_pos c_la_size].
+      rewrite Hpe, app_nil_r, E2 in *. rewrite N.add_0_r in *.
+      repeat split; try assumption; try lia. }
+  destruct (csub C_MAX_MATCH (s_ls s) 320) as [room| |] eqn:Er; try (intros H; inversion H; exact I).
+  assert (Hroom : room = 258 - s_ls s).
+  { unfold csub, C_MAX_MATCH in Er. destruct (s_ls s <=? 258); inversion Er; reflexivity. }
+  set (n := N.min (s_inleft s) room).
+  assert (Hn1 : n <= s_inleft s) by (unfold n; lia).
+  assert (Hn2 : s_ls s + n <= 258) by (unfold n; lia).
+  set (bytes := firstn (N.to_nat n) (s_in s)).
+  assert (Hblen : N.of_nat (length bytes) = n).
+  { unfold bytes. rewrite firstn_length. lia. }
+  set (d := dict_put (c_dict (s_c s)) (s_lp s + s_ls s) bytes).
+  assert (Hd' : dict_inv d data (c_cbdp (s_c s)) (s_lp s + s_ls s + n)).
+  { rewrite <- Hblen. unfold d. apply dict_put_inv; [exact Hd|lia|unfold BS in *; lia|].
+    intros k Hk. unfold bytes. rewrite Hin. apply firstn_skipn_dat. lia. }
+  destruct (csub (s_ls s + n) 1 321) as [ls1| |] eqn:El; try (intros H; inversion H; exact I).
+  assert (Hls1 : ls1 = s_ls s + n - 1 /\ 1 <= s_ls s + n).
+  { unfold csub in El. destruct (1 <=? s_ls s + n) eqn:E; inversion El. apply N.leb_le in E. lia. }
+  destruct Hls1 as [-> Hpos].
+  destruct (31744 <? s_bw s + 1) eqn:Ebw; [|discriminate].
+  apply N.ltb_lt in Ebw. assert (Hbw1 : s_bw s + 1 = BS) by (unfold BS in *; lia).
+  set (c1 := set_la (s_c s) d (s_ls s + n - 1) (s_lp s + 1) _ (s_bw s + 1)).
+  destruct (flush_block c1 (s_cb s) TF_NONE) as [fb| |] eqn:Ef; try (intros H; inversion H; exact I).
+  apply flush_block_raw in Ef;
+    [|cbn; rewrite F1; exact Hraw|cbn; exact F3|cbn; exact F4|cbn; rewrite F2; exact Hwb|left; reflexivity
+     |unfold c1; cbn [set_la mkc c_total_bytes]; rewrite Hbw1; reflexivity|unfold c1; cbn [set_la mkc c_total_bytes]; unfold BS in *; lia
+     |unfold c1; cbn [set_la mkc c_adler]; rewrite F6; exact HA].
+  destruct Ef as [_ Ef].
+  destruct Hcbuf as (len & w & ofs & Ecb). rewrite Ecb in Ef.
+  assert (Hbb : block_bytes c1 TF_NONE =
+                (if hasf flags FLAG_ZLIB && (c_block_index (s_c s) =? 0) then hdr flags wb else []) ++
+                stored_block false (chunk data (N.to_nat (c_block_index (s_c s))))).
+  { change (c_block_index (s_c s)) with (c_block_index c1).
+    apply block_bytes_none; unfold c1; cbn [set_la mkc c_flags c_wbits c_total_bytes c_cbdp c_block_index c_dict];
+      try assumption.
+    - eapply dict_inv_weaken; [exact Hd'|lia|lia].
+    - lia. }
+  destruct (flush_output (after_block c1) (CBuf len w ofs) (block_bytes c1 TF_NONE)) as [[nn c2] cb2] eqn:Efo.
+  assert (Hne : block_bytes c1 TF_NONE <> []).
+  { rewrite Hbb. intros X. apply app_eq_nil in X. destruct X as [_ X]. unfold stored_block in X. discriminate X. }
+  apply flush_output_vout in Efo; [|exact Hpe|exact Hne].
+  destruct Efo as (Ev & (w' & ofs' & Ecb2) & Enn & Ec2).
+  subst fb.
+  destruct (negb (nn =? 0)%Z) eqn:Enz; [|discriminate].
+  intros H; inversion H; subst r; clear H.
+  apply negb_true_iff, Z.eqb_neq in Enz.
+  assert (Hpn : c_pending c2 <> []) by (intros X; rewrite X in Enn; cbn in Enn; lia).
+  assert (Hc2 : exists later, later <> [] /\ c2 = set_pending (after_block c1) later).
+  { destruct Ec2 as [E|E]; [|exact E]. rewrite E in Hpn. exfalso. apply Hpn. exact Hpe. }
+  destruct Hc2 as (later & Hl & Hc2).
+  unfold SQ, BI, cfix. rewrite Hc2.
+  unfold c1. cbn [set_pending after_block set_la mkc c_flags c_wbits c_sbuf c_sbits c_finished c_adler c_flush c_pending
+                  c_cbdp c_block_index c_dict c_total_bytes c_la_pos c_la_size].
+  rewrite Hc2 in Ev. cbn [set_pending mkc c_pending] in Ev.
+  repeat split; try assumption; try lia; try (match goal with X : later = [] |- _ => contradiction end).
+  - eapply dict_inv_weaken; [exact Hd'|lia|lia].
+  - eauto.
+  - rewrite Ev, <- Ecb, app_assoc, Hout, Hbb. symmetry. apply enc_succ.
+Qed.
+
+(* ---- the whole engine call *)
+Lemma compress_stored_post R A c cb input :
+  A < 2 ^ 32 -> BI R A c cb -> c_flush c = TF_FINISH -> c_pending c = [] ->
+  input = skipn (N.to_nat (c_la_pos c + c_la_size c)) data ->
+  forall r, compress_stored c cb input = r -> SQ R A (c_la_pos c + c_la_size c) r.
+Proof.
+  intros HA HBI Hfl Hpe Hin r. unfold compress_stored.
+  set (s0 := {| s_c := c; s_cb := cb; s_in := input; s_inleft := N.of_nat (length input); s_src := 0;
+               s_bw := c_total_bytes c; s_ls := c_la_size c; s_lp := c_la_pos c |}).
+  destruct HBI as (Hfix & Hle & Hlp & Hcb & Htb & Hls & Hd & Hcbuf & Hout).
+  assert (H0 : SI R A (c_la_pos c + c_la_size c) s0).
+  { unfold SI, s0. cbn [s_c s_cb s_in s_inleft s_src s_bw s_ls s_lp].
+    rewrite Hpe, app_nil_r in Hout. destruct Hfix as (F1 & F2 & F3 & F4 & F5 & F6). unfold cfix.
+    repeat split; try assumption; try lia.
+    subst input. rewrite skipn_length. unfold total in *. lia. }
+  pose proof (iter_pow_inv stored_turn (SI R A (c_la_pos c + c_la_size c)) (SQ R A (c_la_pos c + c_la_size c))
+                (fun s s' => stored_turn_SI_inl R A _ s s' HA) (fun s r => stored_turn_SI_inr R A _ s r HA) 40%nat s0 H0) as H.
+  destruct (iter_pow 40 stored_turn s0) as [s'|rr]; intros <-; [exact I|exact H].
+Qed.
+
+(* ---- draining pending output into the call's buffer *)
+Lemma fob_vout c len w ofs st c' cb' :
+  flush_output_buffer c (CBuf len w ofs) = (st, c', cb') ->
+  cb_written cb' ++ c_pending c' = cb_written (CBuf len w ofs) ++ c_pending c /\
+  (exists w' ofs', cb' = CBuf len w' ofs') /\
+  c' = set_pending c (c_pending c') /\
+  st = (if c_finished c && match c_pending c' with [] => true | _ => false end then TDone else TOkay).
+Proof.
+  unfold flush_output_buffer.
+  destruct (ntake (c_pending c) (len - ofs)) as [[now later] k] eqn:Et.
+  apply ntake_spec in Et. destruct Et as (E1 & E2 & E3).
+  intros H; inversion H; subst st c' cb'; clear H.
+  cbn [cb_written set_pending mkc c_pending c_finished].
+  rewrite !rev_append_rev, !app_nil_r, rev_app_distr, rev_involutive, E3, <- app_assoc.
+  repeat split; eauto.
+Qed.
+
+Definition FULL : list N :=
+  let k := total / BS in
+  hdr flags wb ++ encs data (N.to_nat k) ++ stored_block true (skipn (N.to_nat (BS * k)) data) ++
+  (if hasf flags FLAG_ZLIB then be32 (adler32 1 data) else []).
+
+Lemma enc_final k X :
+  enc k ++ (if hasf flags FLAG_ZLIB && (k =? 0) then hdr flags wb else []) ++ X =
+  hdr flags wb ++ encs data (N.to_nat k) ++ X.
+Proof.
+  unfold enc. destruct (k =? 0) eqn:E.
+  - apply N.eqb_eq in E. subst k. cbn [N.to_nat encs app]. rewrite andb_true_r.
+    destruct (hasf flags FLAG_ZLIB) eqn:Z; [reflexivity|]. rewrite hdr_nonzlib by exact Z. reflexivity.
+  - rewrite andb_false_r. cbn [app]. rewrite <- app_assoc. reflexivity.
+Qed.
+
+(* the state between two calls of compress(.., Finish) *)
+Definition GI (R : list N) (c : comp) : Prop :=
+  c_prev c = TOkay /\
+  ((exists A, BI R A c (CBuf 0 [] 0) /\ adler_valid A /\
+              (hasf flags FLAG_ZLIB = true -> A = adler32 1 (firstn (N.to_nat (c_la_pos c + c_la_size c)) data)))
+   \/ (c_finished c = true /\ R ++ c_pending c = FULL)).
+
+Definition call_post (R : list N) (input : list N) (r : cresult) : Prop :=
+  match r_status r with
+  | TOkay => GI (R ++ r_out r) (r_comp r) /\
+             (c_finished (r_comp r) = false ->
+              skipn (N.to_nat (r_in r)) input = skipn (N.to_nat (c_la_pos (r_comp r) + c_la_size (r_comp r))) data)
+  | TDone => R ++ r_out r = FULL
+  | _ => True
+  end.
+
+(* a call that only drains pending output *)
+Lemma drain_post R c c0 input out_len st c' cb' :
+  GI R c -> c0 = set_flush c TF_FINISH ->
+  (c_finished c = false -> input = skipn (N.to_nat (c_la_pos c + c_la_size c)) data) ->
+  flush_output_buffer c0 (CBuf out_len [] 0) = (st, c', cb') ->
+  call_post R input {| r_status := st; r_in := 0; r_out := cb_written cb'; r_comp := set_prev c' st; r_cb := cb' |}.
+Proof.
+  intros [Hprev HG] -> Hin Hf.
+  apply fob_vout in Hf. destruct Hf as (Ev & (w' & ofs' & Ecb) & Ec' & Est).
+  cbn [cb_written rev_append app] in Ev.
+  cbn [set_flush mkc c_pending c_finished] in Ev, Est.
+  unfold call_post. cbn [r_status r_in r_out r_comp].
+  destruct HG as [(A & HBI & HA & Had)|[Hfin Hfull]].
+  - (* still producing blocks *)
+    destruct HBI as (Hfix & Hle & Hlp & Hcb & Htb & Hls & Hd & Hcbuf & Hout).
+    destruct Hfix as (F1 & F2 & F3 & F4 & F5 & F6).
+    rewrite F5 in Est. cbn [andb] in Est. subst st.
+    split.
+    + split; [rewrite Ec'; reflexivity|]. left. exists A. split; [|split; [exact HA|]].
+      * rewrite Ec'. unfold BI, cfix.
+        cbn [set_prev set_pending set_flush mkc c_flags c_wbits c_sbuf c_sbits c_finished c_adler c_la_pos c_la_size
+             c_cbdp c_total_bytes c_block_index c_dict c_pending cb_written rev_append app].
+        repeat split; try assumption; eauto.
+        cbn [cb_written rev_append app] in Hout. rewrite <- app_assoc, Ev. exact Hout.
+      * rewrite Ec'. cbn [set_prev set_pending set_flush mkc c_la_pos c_la_size]. exact Had.
+    + intros _. rewrite Ec'. cbn [set_prev set_pending set_flush mkc c_la_pos c_la_size skipn N.to_nat].
+      apply Hin. exact F5.
+  - rewrite Hfin in Est. cbn [andb] in Est.
+    destruct (c_pending c') as [|x later] eqn:Ep; subst st.
+    + rewrite app_nil_r in Ev. rewrite Ev. exact Hfull.
+    + split.
+      * split; [rewrite Ec'; reflexivity|]. right. rewrite Ec'.
+        cbn [set_prev set_pending set_flush mkc c_finished c_pending]. split; [exact Hfin|].
+        rewrite <- app_assoc, Ev. exact Hfull.
+      * rewrite Ec'. cbn [set_prev set_pending set_flush mkc c_finished]. rewrite Hfin. discriminate.
+Qed.
+
+Lemma firstn_skipn_firstn {A} (l : list A) a b :
+  firstn a l ++ firstn b (skipn a l) = firstn (a + b) l.
+Proof.
+  revert l; induction a as [|a IH]; intros l; [reflexivity|].
+  destruct l as [|x l]; cbn [firstn skipn plus app].
+  - rewrite firstn_nil. reflexivity.
+  - rewrite IH. reflexivity.
+Qed.
+
+Lemma block_bytes_finish c A :
+  c_flags c = flags -> c_wbits c = wb -> c_adler c = A -> c_cbdp c = BS * c_block_index c ->
+  c_total_bytes c < BS -> c_cbdp c + c_total_bytes c = total ->
+  dict_inv (c_dict c) data (c_cbdp c) total ->
+  (hasf flags FLAG_ZLIB = true -> A = adler32 1 data) ->
+  enc (c_block_index c) ++ block_bytes c TF_FINISH = FULL.
+Proof.
+  intros Hf Hw Ha Hc Ht Hsum Hd Had. unfold block_bytes, FULL. rewrite Hf, Hw, Ha.
+  change (TF_FINISH =? TF_FINISH) with true. cbn [andb].
+  rewrite enc_final.
+  assert (Hk : total / BS = c_block_index c).
+  { symmetry. apply (N.div_unique total BS (c_block_index c) (c_total_bytes c)); [exact Ht|lia]. }
+  rewrite Hk. f_equal. f_equal.
+  rewrite (dict_range_data _ data); [|rewrite Hsum; exact Hd|unfold BS in *; lia|unfold total in *; lia].
+  rewrite <- Hc.
+  rewrite firstn_all2 by (rewrite skipn_length; unfold total in *; lia).
+  f_equal. destruct (hasf flags FLAG_ZLIB) eqn:Z; [|reflexivity]. rewrite (Had eq_refl). reflexivity.
+Qed.
+
+Lemma adler_valid_lt A : adler_valid A -> A < 2 ^ 32.
+Proof.
+  unfold adler_valid, ADLER_MOD. intros [H1 H2]. change (2 ^ 32) with 4294967296.
+  pose proof (N.div_mod A 65536 ltac:(lia)). lia.
+Qed.
+
+Theorem compress_GI R c input out_len r :
+  GI R c ->
+  (c_finished c = false -> input = skipn (N.to_nat (c_la_pos c + c_la_size c)) data) ->
+  compress c input out_len TF_FINISH = Ret (CRet r) -> call_post R input r.
+Proof.
+  intros HGI Hin. pose proof HGI as [Hprev HG].
+  unfold compress, compress_inner. rewrite Hprev.
+  change (TF_FINISH =? TF_FINISH) with true. rewrite orb_true_r. cbn [negb orb].
+  set (c0 := set_flush c TF_FINISH).
+  set (cb0 := CBuf out_len [] 0).
+  assert (Hdrain : forall st c' cb', flush_output_buffer c0 cb0 = (st, c', cb') ->
+            call_post R input {| r_status := st; r_in := 0; r_out := cb_written cb'; r_comp := set_prev c' st; r_cb := cb' |}).
+  { intros st c' cb' Hf. eapply drain_post; [exact HGI|reflexivity|exact Hin|exact Hf]. }
+  change (c_pending c0) with (c_pending c). change (c_finished c0) with (c_finished c).
+  change (c_flags c0) with (c_flags c).
+  destruct HG as [(A & HBI & HAv & Had)|[Hfin Hfull]].
+  2:{ rewrite Hfin, orb_true_r.
+      destruct (flush_output_buffer c0 cb0) as [[st c'] cb'].
+      intros H; inversion H; subst r; clear H. apply Hdrain. reflexivity. }
+  pose proof (adler_valid_lt A HAv) as HA.
+  pose proof HBI as (Hfix & Hle & Hlp & Hcb & Htb & Hls & Hd & Hcbuf & Hout).
+  destruct Hfix as (F1 & F2 & F3 & F4 & F5 & F6).
+  rewrite F5, orb_false_r.
+  destruct (c_pending c) as [|p ps] eqn:Hpe; cbn [negb].
+  2:{ destruct (flush_output_buffer c0 cb0) as [[st c'] cb'].
+      intros H; inversion H; subst r; clear H. apply Hdrain. reflexivity. }
+  clear Hdrain.
+  rewrite F1, Hraw. cbn [negb].
+  assert (HBI0 : BI R A c0 cb0).
+  { unfold BI, cfix, c0, cb0.
+    cbn [set_flush mkc c_flags c_wbits c_sbuf c_sbits c_finished c_adler c_la_pos c_la_size
+         c_cbdp c_total_bytes c_block_index c_dict c_pending cb_written rev_append app].
+    try rewrite Hpe. cbn [cb_written rev_append app] in Hout. try rewrite Hpe in Hout.
+    repeat split; try assumption; eauto. }
+  specialize (Hin F5).
+  pose proof (compress_stored_post R A c0 cb0 input HA HBI0 eq_refl Hpe Hin _ eq_refl) as HS.
+  change (c_la_pos c0 + c_la_size c0) with (c_la_pos c + c_la_size c) in HS.
+  destruct (compress_stored c0 cb0 input) as [sr| |]; cbn [bind]; try discriminate.
+  destruct sr as [ok c1 cb1 src|]; [|discriminate].
+  destruct HS as (Hok & HBI1 & Hfl1 & Hsrc & Hend). subst ok.
+  pose proof HBI1 as (Hfix1 & Hle1 & Hlp1 & Hcb1 & Htb1 & Hls1 & Hd1 & Hcbuf1 & Hout1).
+  destruct Hfix1 as (G1 & G2 & G3 & G4 & G5 & G6).
+  (* the running checksum *)
+  set (A' := if hasf flags FLAG_ZLIB || hasf flags FLAG_ADLER then adler32 A (firstn (N.to_nat src) input) else A).
+  assert (HAv' : adler_valid A').
+  { unfold A'. destruct (_ || _); [|exact HAv]. apply adler32_valid. exact HAv. }
+  assert (Had' : hasf flags FLAG_ZLIB = true -> A' = adler32 1 (firstn (N.to_nat (c_la_pos c1 + c_la_size c1)) data)).
+  { intros Z. unfold A'. rewrite Z. cbn [orb]. rewrite (Had Z), Hin, adler32_app by exact adler_valid_1.
+    rewrite firstn_skipn_firstn. f_equal. f_equal. lia. }
+  set (c2 := if hasf (c_flags c1) FLAG_ZLIB || hasf (c_flags c1) FLAG_ADLER
+             then set_adler c1 (adler32 (c_adler c1) (firstn (N.to_nat src) input)) else c1).
+  assert (HBI2 : BI R A' c2 cb1 /\ c_flush c2 = TF_FINISH /\ c_pending c2 = c_pending c1 /\
+                 c_la_pos c2 = c_la_pos c1 /\ c_la_size c2 = c_la_size c1 /\ c_prev c2 = c_prev c1).
+  { unfold c2, A'. rewrite G1, G6. destruct (_ || _).
+    - unfold BI, cfix.
+      cbn [set_adler mkc c_flags c_wbits c_sbuf c_sbits c_finished c_adler c_la_pos c_la_size c_flush c_prev
+           c_cbdp c_total_bytes c_block_index c_dict c_pending].
+      repeat split; try assumption.
+    - repeat split; try assumption. }
+  destruct HBI2 as (HBI2 & Hfl2 & Hpe2 & Hlp2 & Hls2 & Hprev2).
+  clearbody c2.
+  rewrite Hfl2, Hls2, Hpe2.
+  change (TF_FINISH =? TF_NONE) with false. cbn [negb andb].
+  destruct HBI2 as (Gfix & Hle2 & Hlp2' & Hcb2 & Htb2 & Hls2' & Hd2 & (len1 & w1 & ofs1 & Ecb1) & Hout2).
+  destruct Gfix as (K1 & K2 & K3 & K4 & K5 & K6).
+  assert (Hsk : skipn (N.to_nat src) input = skipn (N.to_nat (c_la_pos c1 + c_la_size c1)) data).
+  { rewrite Hin, skipn_skipn_add. f_equal. lia. }
+  match goal with |- bind (if ?b then _ else _) _ = _ -> _ => destruct b eqn:Efin end.
+  - (* everything has been taken in: the last block and the trailer *)
+    apply andb_true_iff in Efin. destruct Efin as [E1 E2].
+    apply N.eqb_eq in E1. apply negb_true_iff, orb_false_iff in E2. destruct E2 as [E2 E3].
+    apply negb_false_iff in E3. destruct (c_pending c1) as [|? ?] eqn:Hp1; [|discriminate]. clear E3.
+    destruct (Hend eq_refl) as [_ Hlast].
+    destruct (flush_block c2 cb1 TF_FINISH) as [fb| |] eqn:Efb; cbn [bind]; try discriminate.
+    apply flush_block_raw in Efb;
+      [|rewrite K1; exact Hraw|exact K3|exact K4|rewrite K2; exact Hwb|right; reflexivity|apply orb_true_r
+       |unfold BS in *; lia|rewrite K6; apply adler_valid_lt; exact HAv'].
+    destruct Efb as [_ Efb]. rewrite Ecb1 in Efb.
+    destruct (flush_output (after_block c2) (CBuf len1 w1 ofs1) (block_bytes c2 TF_FINISH)) as [[n c3] cb3] eqn:Efo.
+    assert (Hne : block_bytes c2 TF_FINISH <> []).
+    { unfold block_bytes. intros X. apply app_eq_nil in X. destruct X as [_ X]. apply app_eq_nil in X.
+      destruct X as [X _]. unfold stored_block in X. discriminate X. }
+    apply flush_output_vout in Efo; [|exact Hpe2|exact Hne].
+    destruct Efo as (Ev & (w3 & ofs3 & Ecb3) & Enn & Ec3).
+    subst fb.
+    replace (n <? 0)%Z with false by (symmetry; apply Z.ltb_ge; rewrite Enn; lia).
+    assert (Hfl3 : c_flush c3 = TF_FINISH).
+    { destruct Ec3 as [->|(later & _ & ->)]; cbn; exact Hfl2. }
+    rewrite Hfl3. change (TF_FINISH =? TF_FINISH) with true.
+    change (c_flush (set_finished c3 true)) with (c_flush c3). rewrite Hfl3.
+    change (TF_FINISH =? TF_FULL) with false. cbv iota. cbn [bind].
+    rewrite Ecb3.
+    destruct (flush_output_buffer (set_finished c3 true) (CBuf len1 w3 ofs3)) as [[st c5] cb5] eqn:Ef5.
+    apply fob_vout in Ef5. destruct Ef5 as (Ev5 & _ & Ec5 & Est).
+    cbn [set_finished mkc c_pending c_finished andb] in Ev5, Est.
+    intros H; inversion H; subst r; clear H.
+    assert (Hall : R ++ cb_written cb5 ++ c_pending c5 = FULL).
+    { rewrite Ev5, <- Ecb3, Ev, <- Ecb1, app_assoc.
+      rewrite Hpe2, app_nil_r in Hout2. rewrite Hout2.
+      apply (block_bytes_finish c2 A'); try assumption.
+      - lia.
+      - replace total with (c_la_pos c2 + c_la_size c2) by (rewrite Hlp2, Hls2, E1, Hlast; lia). exact Hd2.
+      - intros Z. rewrite (Had' Z), Hlast, E1, N.add_0_r. unfold total. rewrite Nat2N.id, firstn_all. reflexivity. }
+    unfold call_post. cbn [r_status r_in r_out r_comp].
+    destruct (c_pending c5) as [|x later] eqn:Hp5; subst st.
+    + rewrite app_nil_r in Hall. exact Hall.
+    + split.
+      * split; [rewrite Ec5; reflexivity|]. right. rewrite Ec5.
+        cbn [set_prev set_pending set_finished mkc c_finished c_pending]. split; [reflexivity|].
+        rewrite <- app_assoc. exact Hall.
+      * rewrite Ec5. cbn [set_prev set_pending set_finished mkc c_finished]. discriminate.
+  - (* more to come: hand over what fits *)
+    cbn [bind]. rewrite Ecb1.
+    destruct (flush_output_buffer c2 (CBuf len1 w1 ofs1)) as [[st c3] cb3] eqn:Ef3.
+    apply fob_vout in Ef3. destruct Ef3 as (Ev3 & _ & Ec3 & Est).
+    rewrite K5 in Est. cbn [andb] in Est. subst st.
+    intros H; inversion H; subst r; clear H.
+    unfold call_post. cbn [r_status r_in r_out r_comp].
+    split.
+    + split; [rewrite Ec3; reflexivity|]. left. exists A'. split; [|split; [exact HAv'|]].
+      * rewrite Ec3. unfold BI, cfix.
+        cbn [set_prev set_pending mkc c_flags c_wbits c_sbuf c_sbits c_finished c_adler c_la_pos c_la_size
+             c_cbdp c_total_bytes c_block_index c_dict c_pending cb_written rev_append app].
+        repeat split; try assumption; eauto.
+        rewrite <- app_assoc, Ev3, <- Ecb1. exact Hout2.
+      * rewrite Ec3. cbn [set_prev set_pending mkc c_la_pos c_la_size]. rewrite Hlp2, Hls2. exact Had'.
+    + intros _. rewrite Ec3. cbn [set_prev set_pending mkc c_la_pos c_la_size]. rewrite Hlp2, Hls2. exact Hsk.
+Qed.
+
+(* ---- compress_to_vec_inner: the growing-vector loop *)
+Definition CI (s : cvstate) : Prop :=
+  GI (rev (vs_rout s)) (vs_c s) /\
+  (c_finished (vs_c s) = false ->
+   vs_in s = skipn (N.to_nat (c_la_pos (vs_c s) + c_la_size (vs_c s))) data).
+
+Definition CQ (r : res cvres) : Prop :=
+  match r with Ret (VBytes out) => out = FULL | _ => True end.
+
+Lemma cvec_turn_inl s s' : CI s -> cvec_turn s = inl s' -> CI s'.
+Proof.
+  intros [HG Hin]. unfold cvec_turn.
+  destruct (compress (vs_c s) (vs_in s) (vs_len s - vs_pos s) TF_FINISH) as [cr| |] eqn:Ec; try discriminate.
+  destruct cr as [r|]; [|discriminate].
+  pose proof (compress_GI _ _ _ _ _ HG Hin Ec) as Hp. unfold call_post in Hp.
+  destruct (r_status r); try discriminate.
+  destruct (r_in r <=? N.of_nat (length (vs_in s))); [|discriminate].
+  intros H; inversion H; subst s'; clear H. unfold CI. cbn [vs_c vs_in vs_rout].
+  rewrite rev_append_rev, rev_app_distr, rev_involutive. exact Hp.
+Qed.
+
+Lemma cvec_turn_inr s r : CI s -> cvec_turn s = inr r -> CQ r.
+Proof.
+  intros [HG Hin]. unfold cvec_turn.
+  destruct (compress (vs_c s) (vs_in s) (vs_len s - vs_pos s) TF_FINISH) as [cr| |] eqn:Ec;
+    try (intros H; inversion H; exact I).
+  destruct cr as [rr|]; [|intros H; inversion H; exact I].
+  pose proof (compress_GI _ _ _ _ _ HG Hin Ec) as Hp. unfold call_post in Hp.
+  destruct (r_status rr); try (intros H; inversion H; exact I).
+  - destruct (r_in rr <=? N.of_nat (length (vs_in s))); [discriminate|intros H; inversion H; exact I].
+  - intros H; inversion H; subst r; clear H. unfold CQ.
+    rewrite !rev_append_rev, app_nil_r, rev_app_distr, rev_involutive. exact Hp.
+Qed.
+End Run.
+
+(* ------------------------------------------------------------------ the theorem *)
+Lemma GI_init data flags : GI data flags 15 [] (comp_new flags 15).
+Proof.
+  unfold GI. split; [reflexivity|]. left. exists 1. split; [|split; [exact adler_valid_1|]].
+  - unfold BI, cfix, comp_new, dict_inv, total, BS, enc.
+    cbn [c_flags c_wbits c_sbuf c_sbits c_finished c_adler c_la_pos c_la_size c_cbdp c_total_bytes c_block_index
+         c_dict c_pending cb_written rev_append app].
+    repeat split; try reflexivity; try lia; eauto.
+  - intros _. reflexivity.
+Qed.
+
+Theorem compress_to_vec_level0 data flags out :
+  hasf flags FLAG_RAW = true ->
+  compress_to_vec_inner data flags = Ret (VBytes out) -> out = FULL data flags 15.
+Proof.
+  intros Hraw. unfold compress_to_vec_inner.
+  set (s0 := {| vs_c := comp_new flags 15; vs_in := data; vs_len := _; vs_pos := 0; vs_rout := [] |}).
+  assert (H0 : CI data flags 15 s0).
+  { split; [apply GI_init|]. intros _. reflexivity. }
+  pose proof (iter_pow_inv cvec_turn (CI data flags 15) (CQ data flags 15)
+                (cvec_turn_inl data flags 15 Hraw ltac:(lia)) (cvec_turn_inr data flags 15 Hraw ltac:(lia)) 40%nat s0 H0) as H.
+  destruct (iter_pow 40 cvec_turn s0) as [s'|r]; [discriminate|].
+  intros E. subst r. exact H.
 Qed.
